@@ -3,7 +3,7 @@
    (ZV.Gen.Gen_Bounds).  Only `exact lemma` here; proofs are in Params/ParamProofs.v (and CParamsAdjustProofs.v). *)
 From Coq Require Import ZArith List Bool.
 From ZV.Gen Require Import Gen_Bounds.
-From ZV.Params Require Import BoundsModel ParamModel ParamProofs.
+From ZV.Params Require Import BoundsModel ParamModel ParamProofs CParamsAdjust CParamsAdjustProofs.
 Import ListNotations.
 Local Open Scope Z_scope.
 
@@ -251,6 +251,33 @@ Print Assumptions bounds_table_rows_modelled.
 Theorem parameter_ids_distinct : (forall p, cparam_of_id (cparam_id p) = Some p) /\ (forall p, dparam_of_id (dparam_id p) = Some p).
 Proof. exact (conj cparam_of_id_id dparam_of_id_id). Qed.
 Print Assumptions parameter_ids_distinct.
+
+(* ---- level -> compression parameters: the table and the adjustment never leave the advertised bounds ---- *)
+Theorem cparams_adjust_in_bounds : forall c srcSize dictSize mode useRow,
+  check_cparams c = true -> 0 <= dictSize < 2 ^ 63 ->
+  check_cparams (adjust_cparams c srcSize dictSize mode useRow) = true.
+Proof. exact cparams_adjust_in_bounds_l. Qed.
+Print Assumptions cparams_adjust_in_bounds.
+
+Theorem adjustCParams_public_in_bounds : forall c srcSize dictSize, 0 <= dictSize < 2 ^ 63 ->
+  check_cparams (adjust_cparams_public c srcSize dictSize) = true.
+Proof. exact adjust_public_in_bounds_l. Qed.
+Print Assumptions adjustCParams_public_in_bounds.
+
+Theorem getCParams_in_bounds : forall level srcSizeHint dictSize mode,
+  0 <= dictSize < 2 ^ 63 ->
+  check_cparams (get_cparams level srcSizeHint dictSize mode) = true.
+Proof. exact getCParams_in_bounds_l. Qed.
+Print Assumptions getCParams_in_bounds.
+
+Theorem getCParams_public_in_bounds : forall level srcSizeHint dictSize, 0 <= dictSize < 2 ^ 63 ->
+  check_cparams (get_cparams_public level srcSizeHint dictSize) = true.
+Proof. exact getCParams_public_in_bounds_l. Qed.
+Print Assumptions getCParams_public_in_bounds.
+
+Theorem level_table_in_bounds : forall t r, 0 <= t <= 3 -> 0 <= r <= 22 -> check_cparams (table_lookup t r) = true.
+Proof. exact table_lookup_ok. Qed.
+Print Assumptions level_table_in_bounds.
 
 (* ---- fresh objects; finding F22 (fixed by 32f35e7) kept as the refutation for the old static initialisation ---- *)
 Theorem fresh_objects_hold_defaults :
